@@ -283,7 +283,8 @@ func (s *sim) drawAttack(p *peerSim) {
 	if a.typ == atTopSuccessor {
 		a.f = L
 	}
-	a.fc = t.Int(fcKinds + 1)
+	// forged-commit kind; index fcKinds = no LastCommit at all
+	a.fc = t.Pick(3, 2, 2, 2, 4, 2, 2, 1, 1, 2, 2, 2, 2, 1)
 	a.fix = t.Bool(2, 3)
 	a.gkind = t.Int(6)
 	switch t.Pick(2, 2, 1) {
@@ -298,10 +299,10 @@ func (s *sim) drawAttack(p *peerSim) {
 	default:
 		a.wh = a.f + 150 + uint64(t.Int(50))
 	}
-	if (a.typ == atAltFirst || a.typ == atFork) && a.f >= 1 && a.f <= L && (len(s.w.alts[a.f]) == 0 || t.Bool(1, 4)) {
+	if (a.typ == atAltFirst || a.typ == atFork) && a.f >= 1 && a.f <= L && (len(s.w.alts[a.f]) == 0 || t.Bool(2, 5)) {
 		// no executable alternative was produced for this height (or for variety):
 		// a header-tweaked copy of the canonical block
-		s.w.alts[a.f] = append(s.w.alts[a.f], s.w.fabricateFirst(a.f, t.Int(3)))
+		s.w.alts[a.f] = append(s.w.alts[a.f], s.w.fabricateFirst(a.f, t.Int(firstVariants)))
 	}
 	p.att = a
 	s.note("%s plans %s at %d", p.id, atNames[a.typ], a.f)
